@@ -294,7 +294,9 @@ public:
     auto xy_at(x_coord_t x, y_coord_t y) const -> xy_locator
     {
         // TODO: Are relative locations of neighbors with negative offsets valid? Sampling?
-        BOOST_ASSERT(x < width());
+        // Only a locator is formed here: allow the inclusive range up to the end, as axis_iterator does
+        // (the view factories request xy_at(0, 0) of views that may have no pixels)
+        BOOST_ASSERT(x <= width());
         BOOST_ASSERT(y <= height());
         return _pixels + point_t(x, y);
     }
@@ -302,8 +304,8 @@ public:
     auto xy_at(point_t const& p) const -> xy_locator
     {
         // TODO: Are relative locations of neighbors with negative offsets valid? Sampling?
-        BOOST_ASSERT(p.x < width());
-        BOOST_ASSERT(p.y < height());
+        BOOST_ASSERT(p.x <= width());
+        BOOST_ASSERT(p.y <= height());
         return _pixels + p;
     }
     //\}@
